@@ -14,8 +14,8 @@
        the end (terminator operands, values defined in both versions of the block).
    Normalisation applies the rewrite rules of Proofs/C02_rules.v: constants are wrapped, an
    operation / a cast on constants is evaluated with IRSem.eval_binop / wrap_ty, x+0, 0+x, x*1 on
-   a value of the same integer type is x.  (The chain rules (y+c1)+c2 are proved in C02_rules.v
-   but not used here: such block pairs stay undecided and are executed instead.)
+   a value of the same integer type is x, (y+c1)+c2 = y+(c1+c2), (y-c1)-c2 = y-(c1+c2).
+   [tl] = trust the declared types of leaves in the x+0 / x*1 rules (hypothesis env_typed).
    [rho] maps "after" vids of values defined outside the block to "before" vids (an untrusted
    hint: the soundness theorem assumes the two initial environments agree along rho).
    Executable definitions only; the soundness theorem is in Proofs/C02_validate.v. *)
@@ -80,6 +80,7 @@ End Den.
 Section Check.
   Variable c : cfg.
   Variable f : func.      (* the "before" function: types of the leaves *)
+  Variable tl : bool.     (* trust the declared types of leaves (needs hypothesis env_typed) *)
 
   (* ---- normalisation *)
   Definition cval (x : sexp) : option Z :=
@@ -89,11 +90,24 @@ Section Check.
   Definition typed_head (x : sexp) (t : ty) : bool :=
     match x with
     | SBin t' _ _ _ | SUn t' _ _ | SCast t' _ | SConst t' (CInt _) => ty_eqb t' t
-    | SLeaf r => match ref_ty f r with Some t' => ty_eqb t' t | None => false end
+    | SLeaf r => tl && match ref_ty f r with Some t' => ty_eqb t' t | None => false end
     | _ => false
     end.
   Definition is_shape (t : ty) : bool := match int_shape c t with Some _ => true | None => false end.
   Definition zeqb (o : option Z) (z : Z) : bool := match o with Some y => y =? z | None => false end.
+
+  (* (y o c1) o c2 = y o (c1 + c2) for o = Add, Sub *)
+  Definition chain_bin (t : ty) (o : binop) (a b : sexp) : sexp :=
+    match a, cval b with
+    | SBin t1 o1 y c1, Some k2 =>
+        match cval c1, wrap_ty c t (match cval c1 with Some k1 => k1 + k2 | None => 0 end) with
+        | Some k1, Some k =>
+            if ty_eqb t1 t && dec2b binop_eq_dec o1 o && (dec2b binop_eq_dec o Add || dec2b binop_eq_dec o Sub)
+            then SBin t o y (SConst t (CInt k)) else SBin t o a b
+        | _, _ => SBin t o a b
+        end
+    | _, _ => SBin t o a b
+    end.
 
   Definition simp_bin (t : ty) (o : binop) (a b : sexp) : sexp :=
     match cval a, cval b with
@@ -106,7 +120,8 @@ Section Check.
       | Add =>
           if zeqb (cval b) 0 && typed_head a t && is_shape t then a
           else if zeqb (cval a) 0 && typed_head b t && is_shape t then b
-          else SBin t o a b
+          else chain_bin t Add a b
+      | Sub => chain_bin t Sub a b
       | Mul => if zeqb (cval b) 1 && typed_head a t && is_shape t then a else SBin t o a b
       | _ => SBin t o a b
       end
@@ -273,14 +288,14 @@ Definition body_of (f : func) (b : bid) : list instr :=
 Definition check_spec (c : cfg) (f f' : func)
            (sp : bid * bid * list (vid * vid) * list (vref * vref)) : bool :=
   let '(b, b', rho, outs) := sp in
-  check_block c f f' rho (body_of f b) (body_of f' b') outs.
+  check_block c f true f' rho (body_of f b) (body_of f' b') outs.
 
 (* ------------------------------------------------------------------ sanity *)
 Local Open Scope string_scope.
 Definition vf : func := mk_func "f" BGlobal (Some I32) [("x", I32)] [].
 (* y = x + 0; z = y * 2   ~~>   y = x + 0; z = x * 2 *)
 Example check_addzero :
-  check_block default_cfg vf vf []
+  check_block default_cfg vf true vf []
     [IConst 1 "z" I32 (CInt 0); IBinop 2 "y" I32 Add (Param 0) (Loc 1); IConst 3 "two" I32 (CInt 2);
      IBinop 4 "r" I32 Mul (Loc 2) (Loc 3)]
     [IConst 1 "z" I32 (CInt 0); IBinop 2 "y" I32 Add (Param 0) (Loc 1); IConst 3 "two" I32 (CInt 2);
@@ -289,18 +304,18 @@ Example check_addzero :
 Proof. vm_compute. reflexivity. Qed.
 (* -7 % 2 folded to 1 is rejected, folded to -1 is accepted *)
 Example check_rem_floor_rejected :
-  check_block default_cfg vf vf []
+  check_block default_cfg vf true vf []
     [IConst 1 "a" I32 (CInt (-7)); IConst 2 "b" I32 (CInt 2); IBinop 3 "c" I32 Rem (Loc 1) (Loc 2)]
     [IConst 1 "a" I32 (CInt (-7)); IConst 2 "b" I32 (CInt 2); IConst 3 "new_fold" I32 (CInt 1)]
     [(Loc 3, Loc 3)]%positive = false.
 Proof. vm_compute. reflexivity. Qed.
 Example check_rem_trunc_accepted :
-  check_block default_cfg vf vf []
+  check_block default_cfg vf true vf []
     [IConst 1 "a" I32 (CInt (-7)); IConst 2 "b" I32 (CInt 2); IBinop 3 "c" I32 Rem (Loc 1) (Loc 2)]
     [IConst 1 "a" I32 (CInt (-7)); IConst 2 "b" I32 (CInt 2); IConst 3 "new_fold" I32 (CInt (-1))]
     [(Loc 3, Loc 3)]%positive = true.
 Proof. vm_compute. reflexivity. Qed.
 (* a store may not disappear *)
 Example check_store_dropped_rejected :
-  check_block default_cfg vf vf [] [IStore (Param 0) (Glob "g") false] [] [] = false.
+  check_block default_cfg vf true vf [] [IStore (Param 0) (Glob "g") false] [] [] = false.
 Proof. vm_compute. reflexivity. Qed.
